@@ -24,6 +24,19 @@ CHECKS = {
  "C11": dict(level="model_checking", design="5/C11", technique="TLA+/PlusCal CacheFS model of 2-3 concurrent processes checked by TLC; TLC-simulated and pre-emption-bounded schedules replayed on real processes/threads at file-system-call granularity (LD_PRELOAD turn-based scheduler)",
              text="All interleavings of the model for 2-3 participants are model-checked; on the real code every schedule with <= 2 pre-emptions between two participants (strided in quick), TLC-simulated schedules and random ones are enforced call by call and every participant's result checked.",
              note="Trusted base: TLC; interleaving granularity = libc file-system calls under the cache root; 2-3 participants."),
+
+ "C02": dict(level="model_checking", design="5/C02", technique="TLA+ MemoryDesign (histories) checked by TLC + ArgBinding-generated programs of cached calls (equivalent forms, near-colliding values, ignore lists, methods/async/partials, compression, fresh process) judged against the undecorated function",
+             text="History dimension model-checked on MemoryDesign; input dimension: every signature with <= 3 (thorough: 4) parameters from the TLC enumeration of ArgBinding, several call shapes each, one-parameter perturbations to near-colliding typed values: the cached call must return what the plain function returns.",
+             note="Trusted base: TLC; ArgBinding.tla (cross-checked against CPython by C07); generated functions are pure."),
+ "C06": dict(level="model_checking", design="5/C06", technique="TLA+ MemoryDesign action property HitWhenDue + ArgBinding equivalence classes of call forms replayed on real Memory (execution counting, check_call_in_cache, acceptance), same and fresh process",
+             text="Equivalent call forms (same ArgBinding image, spelled-out defaults, rebuilt dicts/sets, ignored parameters) of a completed call must not execute the body again, in the same and in a fresh process; check_call_in_cache must predict it; every accepted call is accepted by the wrapper.",
+             note="Trusted base: TLC; ArgBinding.tla; execution counter inside the generated functions. Open finding D14 (partials across processes)."),
+ "C12": dict(level="model_checking", design="5/C12", technique="TLA+ MemoryDesign (define / swap __code__ / call / restart / clear / evict over same-named functions, several stores) model-checked by TLC; all behaviours of bounded length and TLC-simulated longer ones replayed on real Memory sessions",
+             text="All histories of the model are checked for ValueCorrect/HitWhenDue (with the repaired defects D6, D13 switched off TLC finds their counterexamples); generated histories are replayed for module-level, nested, lambda and __main__ functions.",
+             note="Trusted base: TLC; sessions are sequential (one live process at a time) as in the property's quantifier; two simultaneously live processes are a documented limit."),
+ "C18": dict(level="model_checking", design="5/C18", technique="declarative TLA+ spec of the minimal LRU prefix (Eviction) enumerated by TLC with its set of valid answers; each state materialised as a real cache directory and reduce_size called",
+             text="Exhaustive over canonical stores with <= 3 items x limit combinations (thorough; sampled in quick, plus 4-item stores): the evicted set must be one of the valid answers, survivors load, evicted entries recompute.",
+             note="Trusted base: TLC; tie-tolerant reading of LRU order; age boundaries avoided by half a step."),
 }
 NA_REASON = "check not built yet (construction in progress, see DESIGN.md section 8c build order)"
 M = {"version": 1, "setup_cmd": "make -C /verif",
@@ -32,6 +45,7 @@ M = {"version": 1, "setup_cmd": "make -C /verif",
                "source_commits": [], "add_only": True},
      "engines": [{"name": "tlc", "path": "engine/tlc.py", "serves_properties": sorted(CHECKS), "kind_free_text": "TLC 1.8 runner: model check, simulate, batched trace validation (specs/*.tla)"},
                  {"name": "parallel-drivers", "path": "harness/pl1.py", "serves_properties": ["C01", "C04", "C09", "C16"], "kind_free_text": "controlled backend + deterministic drivers of the real joblib.Parallel"},
+                 {"name": "memory-programs", "path": "checks/memargs.py", "serves_properties": ["C02", "C06", "C12", "C18"], "kind_free_text": "generated programs / histories / stores replayed on real joblib.Memory"},
                  {"name": "fs-interposer", "path": "harness/fsctl.py", "serves_properties": ["C05", "C11"], "kind_free_text": "LD_PRELOAD interposer + controller: crash injection, torn writes, turn-based scheduling of real processes"}],
      "checks": [], "notes": "see DESIGN.md; KNOWN_FINDINGS.jsonl lists repaired (fixed) and open findings",
      "not_applicable": []}
